@@ -2,7 +2,7 @@
 import vlib
 
 MODULES = {
-    "C15": "leaf", "C16": "leaf", "C06": "leaf", "C05": "leaf", "C01": "framing", "C08": "framing",
+    "C15": "leaf", "C16": "leaf", "C06": "leaf", "C05": "leaf", "C19": "leaf", "C01": "framing", "C08": "framing",
 }
 
 
